@@ -17,7 +17,7 @@ from vf import core, gen, pipe
 PROPERTY = 'C08'
 RULE = ('cases = one streaming run over a generated CSV file: exhaustive (rows<=12, batch size<=5, subsampling<=3, every single-row '
         'corruption position and kind incl. none) and boundary-targeted files with row counts k*B+t, t in {0,1,1023,1024,1025,B-1}, '
-        'B in {1,7,64,1024,1025,1500,4096}, subsampling in {1,2,3,7,10}, malformed rows (short, long, empty, stray quote; quoted commas '
+        'B in {1,7,64,1024,1025,1500,4096}, subsampling in {1,2,3,7,10}, malformed rows (short, long, empty, unclosed quote, quote swallowing a delimiter; quoted commas '
         'as valid rows) at the first/last position of a batch, just before EOF and in runs; plain and .gz input; 3-6 columns; library '
         'level (estimate_importances_minibatches), task level (outrank_task_conduct_ranking) and command-line level (outrank.__main__.main) -> pairwise_ranks.tsv. distinct = (rows, '
         'B, subsampling, #invalid, invalid positions, level); non-trivial = at least 2 batches, or a tail decision within +-1 of 1024.')
@@ -215,6 +215,8 @@ def render(header, rows, corrupt):
             out.append('')
         elif kind == 'quoted-comma':      # a valid row: one field contains a comma
             out.append(','.join(['"%s,x"' % r[0]] + r[1:]))
+        elif kind == 'unclosed-quote':    # a truncated record: opening quote never closed (must not affect the following lines)
+            out.append(r[0] + ',"' + ','.join(r[1:-1]) if len(r) > 2 else '"' + r[0])
         elif kind == 'merged':            # a quote swallowing a delimiter: one field too few
             out.append(','.join(['"%s,%s"' % (r[0], r[1])] + r[2:]))
         else:
@@ -232,7 +234,7 @@ def shard_exhaustive(sh, part, parts):
             for sub in (1, 2, 3):
                 jobs.append((n, B, sub, None, None))
                 for pos in range(n):
-                    for kind in ('short', 'long', 'empty'):
+                    for kind in ('short', 'long', 'empty', 'unclosed-quote'):
                         jobs.append((n, B, sub, (pos,), kind))
                 if sh.tier == 'thorough' and n <= 9:
                     for p1 in range(n):
@@ -284,7 +286,7 @@ def shard_boundary(sh, part, parts):
         consumed_positions = [p for p in range(1, n_file + 1) if p % sub == 0]
         corrupt = {}
         style = rng.choice(['none', 'batch-edges', 'eof', 'run', 'scattered', 'valid-quoted'])
-        kinds = ['short', 'long', 'empty', 'merged']
+        kinds = ['short', 'long', 'empty', 'merged', 'unclosed-quote']
         if consumed_positions and style != 'none':
             if style == 'batch-edges':
                 for b in range(0, len(consumed_positions), max(1, B)):
@@ -305,7 +307,7 @@ def shard_boundary(sh, part, parts):
                 for p in rng.sample(consumed_positions, min(len(consumed_positions), 5)):
                     corrupt[p - 1] = 'quoted-comma'
         # corrupted rows shrink the consumed valid count: top up so that the boundary t is still hit exactly for some cases
-        n_invalid = sum(1 for v in corrupt.values() if v != 'quoted-comma')
+        n_invalid = sum(1 for v in corrupt.values() if v != 'quoted-comma')   # (an unclosed quote may or may not change the field count; the model decides)
         if rng.random() < 0.7:
             n_file += n_invalid * sub
         rows = make_rows(nprng, rng, n_file, ncols)
